@@ -159,6 +159,8 @@ func fillCertFields(template *x509.Certificate, subjectPub, issuerPub crypto.Pub
 	}
 	if ArgCommonName != "" {
 		template.Subject = subjName()
+		// a parsed certificate carries its encoded subject, which would take precedence
+		template.RawSubject = nil
 	}
 	if ArgDNSNames != "" {
 		template.DNSNames = splitAndTrim(ArgDNSNames)
